@@ -590,6 +590,10 @@ def harnesses_for(pid, tier, reg, cat):
         tags = [t for t in e["tags"] if t.startswith(pid + "/")]
         if n in extra13:
             tags = list(e["tags"])
+        if pid == "C20":
+            # totality: Kani's automatic checks (panics, overflow, out-of-bounds and mid-character access, invalid
+            # pointers) are C20 obligations in EVERY harness, whether or not it carries a C20-tagged postcondition
+            tags = tags or ["C20/auto"]
         if pid == "C04":
             # C04: every obligation of a Check-mode twin is a C04 obligation
             if not n.endswith("_check") and "_check_" not in n and not tags:
